@@ -69,9 +69,18 @@ def rule_routing(repo, rep):
         rep.unknown(R, key, site(f), 'method never reaches check_input')
       # calls through the user's preprocessor only in the two helpers
       Rw = 'R-WHO:preprocessor-callers'
+      ok_keys = _pre_helpers(repo)
+
+      def _inside(fn):
+        # an allowed function, or a function nested in one
+        k = fn.key
+        qn = getattr(fn, 'qualname', '') or ''
+        return k in ok_keys or any(
+            k.startswith(a + '.') or
+            qn.startswith(a.split('.', 1)[1] + '.<locals>.')
+            for a in ok_keys)
       outside = [x for x in dom.pre_calls
-                 if x[2] is None or x[2].key not in (
-                     '_util.preprocess_tuples', '_util.preprocess_points')]
+                 if x[2] is None or not _inside(x[2])]
       if outside:
         rep.refuted(Rw, key, outside[0][1],
                     'a user-supplied callable is invoked outside '
@@ -80,8 +89,41 @@ def rule_routing(repo, rep):
         rep.derived(Rw, key, site(f))
   rep.rule('R-WHO:preprocessor-callers', 'calls through the user-supplied '
            'preprocessor value occur only in preprocess_tuples / '
-           'preprocess_points')
+           'preprocess_points (and private helpers called from nowhere '
+           'else)')
   rep.floor('check_input call events from estimator methods', n, 100)
+
+
+_PRE_HELPERS = {}
+
+
+def _pre_helpers(repo):
+  """preprocess_tuples / preprocess_points and the private helpers that are
+  called from nowhere else (transitively): extracting a few lines of them
+  into a helper does not widen who may call through the preprocessor"""
+  if id(repo) in _PRE_HELPERS:
+    return _PRE_HELPERS[id(repo)]
+  allowed = {'_util.preprocess_tuples', '_util.preprocess_points'}
+  funcs = list(repo.all_functions())
+  callers = {}
+  for g in funcs:
+    for c in astutil.calls_in(g.node):
+      d = repo.dotted(g.module, c.func)
+      h = repo.func_by_dotted(d) if d else None
+      if h is not None:
+        callers.setdefault(h.key, set()).add(g.key)
+  changed = True
+  while changed:
+    changed = False
+    for g in funcs:
+      if g.key in allowed or g.cls is not None:
+        continue
+      cs = callers.get(g.key, set()) - {g.key}
+      if cs and cs <= allowed:
+        allowed.add(g.key)
+        changed = True
+  _PRE_HELPERS[id(repo)] = allowed
+  return allowed
 
 
 class IdDomain(TagDomain):
@@ -545,7 +587,12 @@ def rule_slot_order(repo, rep):
         k = self.ncall
         self.ncall += 1
         if self.fail_at is not None and k == self.fail_at:
-          raise Raised(['KeyError', 'LookupError', 'Exception'], node)
+          # any exception type: alternate between unrelated ones
+          kinds = (['KeyError', 'LookupError', 'Exception'],
+                   ['ZeroDivisionError', 'ArithmeticError', 'Exception'],
+                   ['RuntimeError', 'Exception'],
+                   ['IndexError', 'LookupError', 'Exception'])
+          raise Raised(list(kinds[(self.t + k) % len(kinds)]), node)
         if tg(args[0]) == 'col':
           return S('pts', args[0][1])
         if args[0] == S('points'):
@@ -720,4 +767,5 @@ def check(repo, rep, tier):
   rule_only_for_indicators(repo, rep)
   rule_slot_order(repo, rep)
   rule_indexer_permissive(repo, rep)
-  rule_wrapped(repo, rep)
+  # (error wrapping is decided by R-INTERP:tuple-formation: an exception of
+  # the preprocessor at any slot must surface as PreprocessorError)
